@@ -53,7 +53,8 @@ theorem stateTagName_name (h : H) (pre name rest : Bytes) (hs : h.s = pre ++ nam
     (hclose : h.isClose = false) (hn : NameAt name rest) :
     ∃ h2, stateTagName h = .ok (true, h2) ∧ h2.s = h.s ∧ h2.tokType = .tagNameOpen ∧ h2.tokStart = pre.length ∧
       h2.tokLen = name.length ∧
-      (∀ w t, rest = w :: t → isH5White w = true → h2.state = .beforeAttrName ∧ h2.pos = pre.length + name.length + 1) := by
+      (∀ w t, rest = w :: t → isH5White w = true → h2.state = .beforeAttrName ∧ h2.pos = pre.length + name.length + 1) ∧
+      (∀ t, rest = 47 :: t → h2.state = .selfClosing ∧ h2.pos = pre.length + name.length + 1) := by
   have hlen : h.s.length = pre.length + name.length + rest.length := by rw [hs]; simp; omega
   have hdrop : h.s.drop h.pos = name ++ rest := by
     rw [hs, hpos, List.append_assoc, List.drop_left]
@@ -68,32 +69,36 @@ theorem stateTagName_name (h : H) (pre name rest : Bytes) (hs : h.s = pre ++ nam
   rw [hget]
   rcases hn.stop with rfl | ⟨c, t, rfl, hc⟩
   · simp only [List.getElem?_nil]
-    refine ⟨_, rfl, rfl, rfl, hpos, ?_, fun w t h => by cases h⟩
+    refine ⟨_, rfl, rfl, rfl, hpos, ?_, (fun w t h => by cases h), (fun t h => by cases h)⟩
     show h.s.length - h.pos = name.length
     rw [hlen, hpos]; simp
   · simp only [List.getElem?_cons_zero]
     rcases stop_byte c hc with hw | h47 | h62
     · simp only [hw, ↓reduceIte]
       exact ⟨_, rfl, rfl, rfl, hpos, by show h.pos + name.length - h.pos = name.length; omega,
-        fun w t _ _ => ⟨rfl, by show h.pos + name.length + 1 = _; rw [hpos]⟩⟩
+        (fun w t _ _ => ⟨rfl, by show h.pos + name.length + 1 = _; rw [hpos]⟩),
+        (fun t he => by simp only [List.cons.injEq] at he; rw [he.1] at hw; exact absurd hw (by decide))⟩
     · subst h47
       have : isH5White 47 = false := by decide
       simp only [this, Bool.false_eq_true, ↓reduceIte, beq_self_eq_true]
       exact ⟨_, rfl, rfl, rfl, hpos, by show h.pos + name.length - h.pos = name.length; omega,
-        fun w t he hw' => by simp only [List.cons.injEq] at he; rw [← he.1] at hw'; exact absurd hw' (by decide)⟩
+        (fun w t he hw' => by simp only [List.cons.injEq] at he; rw [← he.1] at hw'; exact absurd hw' (by decide)),
+        (fun t _ => ⟨rfl, by show h.pos + name.length + 1 = _; rw [hpos]⟩)⟩
     · subst h62
       have e1 : isH5White 62 = false := by decide
       have e2 : ((62 : UInt8) == 47) = false := by decide
       simp only [e1, e2, Bool.false_eq_true, ↓reduceIte, hclose]
       exact ⟨_, rfl, rfl, rfl, hpos, by show h.pos + name.length - h.pos = name.length; omega,
-        fun w t he hw' => by simp only [List.cons.injEq] at he; rw [← he.1] at hw'; exact absurd hw' (by decide)⟩
+        (fun w t he hw' => by simp only [List.cons.injEq] at he; rw [← he.1] at hw'; exact absurd hw' (by decide)),
+        (fun t he => by simp only [List.cons.injEq] at he; exact absurd he.1 (by decide))⟩
 
 /-- **the tag-open state on a name** hands over to the tag-name state -/
 theorem stateTagOpen_name (d : Nat) (h : H) (pre name rest : Bytes) (hs : h.s = pre ++ name ++ rest) (hpos : h.pos = pre.length)
     (hclose : h.isClose = false) (hn : NameAt name rest) :
     ∃ h2, stateTagOpen (d + 1) h = .ok (true, h2) ∧ h2.s = h.s ∧ h2.tokType = .tagNameOpen ∧ h2.tokStart = pre.length ∧
       h2.tokLen = name.length ∧
-      (∀ w t, rest = w :: t → isH5White w = true → h2.state = .beforeAttrName ∧ h2.pos = pre.length + name.length + 1) := by
+      (∀ w t, rest = w :: t → isH5White w = true → h2.state = .beforeAttrName ∧ h2.pos = pre.length + name.length + 1) ∧
+      (∀ t, rest = 47 :: t → h2.state = .selfClosing ∧ h2.pos = pre.length + name.length + 1) := by
   obtain ⟨c, t, hname, hc⟩ := hn.first
   have hlen : h.s.length = pre.length + name.length + rest.length := by rw [hs]; simp; omega
   have hnl : 1 ≤ name.length := by rw [hname]; simp
@@ -149,7 +154,8 @@ theorem black_tag_in_content (p name rest : Bytes) (hp : (60 : UInt8) ∉ p) (hn
     subst hp0
     have hnext : ∃ h2, next (init ([] ++ 60 :: (name ++ rest)) 0) = .ok (true, h2) ∧ h2.s = [] ++ 60 :: (name ++ rest) ∧
         h2.tokType = .tagNameOpen ∧ h2.tokStart = ([] ++ [60] : Bytes).length ∧ h2.tokLen = name.length ∧
-        (∀ w t, rest = w :: t → isH5White w = true → h2.state = .beforeAttrName ∧ h2.pos = ([60] : Bytes).length + name.length + 1) := by
+        (∀ w t, rest = w :: t → isH5White w = true → h2.state = .beforeAttrName ∧ h2.pos = ([60] : Bytes).length + name.length + 1) ∧
+        (∀ t, rest = 47 :: t → h2.state = .selfClosing ∧ h2.pos = ([60] : Bytes).length + name.length + 1) := by
       unfold next init
       simp only [List.nil_append]
       unfold stateData dataDepth
@@ -157,7 +163,7 @@ theorem black_tag_in_content (p name rest : Bytes) (hp : (60 : UInt8) ∉ p) (hn
       have hi : indexByte (60 :: (name ++ rest)) 60 = some 0 := by simp [indexByte]
       simp only [hi, beq_self_eq_true, ↓reduceIte]
       exact stateTagOpen_name 4 _ [60] name rest (by simp [emit]) (by simp [emit]) (by simp [emit]) hn
-    obtain ⟨h2, e0, e1, e2, e3, e4, _⟩ := hnext
+    obtain ⟨h2, e0, e1, e2, e3, e4, _, _⟩ := hnext
     exact xssLoop_black_tag _ h2 0 _ e0 e2 (hslice h2 e1 e3 e4) hb
   · -- some text first: a data token, then the tag-open state
     have hpl : 1 ≤ p.length := by cases p with | nil => exact absurd rfl hp0 | cons _ _ => simp
@@ -379,7 +385,8 @@ theorem content_reaches_tag (p name rest : Bytes) (hp : (60 : UInt8) ∉ p) (hn 
     ∃ h2 k, k ≤ 2 ∧ 1 ≤ k ∧ h2.s = p ++ 60 :: (name ++ rest) ∧
       (∀ fuel, xssLoop (init (p ++ 60 :: (name ++ rest)) 0) 0 (fuel + k) =
         if isBlackTag name = true then .ok true else xssLoop h2 0 fuel) ∧
-      (∀ w t, rest = w :: t → isH5White w = true → h2.state = .beforeAttrName ∧ h2.pos = p.length + 1 + name.length + 1) := by
+      (∀ w t, rest = w :: t → isH5White w = true → h2.state = .beforeAttrName ∧ h2.pos = p.length + 1 + name.length + 1) ∧
+      (∀ t, rest = 47 :: t → h2.state = .selfClosing ∧ h2.pos = p.length + 1 + name.length + 1) := by
   have hs' : p ++ 60 :: (name ++ rest) = (p ++ [60]) ++ name ++ rest := by simp
   have hslice : ∀ (h2 : H), h2.s = p ++ 60 :: (name ++ rest) → h2.tokStart = (p ++ [60]).length → h2.tokLen = name.length →
       slice h2.s h2.tokStart (h2.tokStart + h2.tokLen) = .ok name := by
@@ -393,7 +400,8 @@ theorem content_reaches_tag (p name rest : Bytes) (hp : (60 : UInt8) ∉ p) (hn 
   · subst hp0
     have hnext : ∃ h2, next (init ([] ++ 60 :: (name ++ rest)) 0) = .ok (true, h2) ∧ h2.s = [] ++ 60 :: (name ++ rest) ∧
         h2.tokType = .tagNameOpen ∧ h2.tokStart = ([] ++ [60] : Bytes).length ∧ h2.tokLen = name.length ∧
-        (∀ w t, rest = w :: t → isH5White w = true → h2.state = .beforeAttrName ∧ h2.pos = ([60] : Bytes).length + name.length + 1) := by
+        (∀ w t, rest = w :: t → isH5White w = true → h2.state = .beforeAttrName ∧ h2.pos = ([60] : Bytes).length + name.length + 1) ∧
+        (∀ t, rest = 47 :: t → h2.state = .selfClosing ∧ h2.pos = ([60] : Bytes).length + name.length + 1) := by
       unfold next init
       simp only [List.nil_append]
       unfold stateData dataDepth
@@ -401,11 +409,14 @@ theorem content_reaches_tag (p name rest : Bytes) (hp : (60 : UInt8) ∉ p) (hn 
       have hi : indexByte (60 :: (name ++ rest)) 60 = some 0 := by simp [indexByte]
       simp only [hi, beq_self_eq_true, ↓reduceIte]
       exact stateTagOpen_name 4 _ [60] name rest (by simp [emit]) (by simp [emit]) (by simp [emit]) hn
-    obtain ⟨h2, e0, e1, e2, e3, e4, e5⟩ := hnext
-    refine ⟨h2, 1, by omega, by omega, e1, fun fuel => xssLoop_tag_step _ h2 0 fuel name e0 e2 (hslice h2 e1 e3 e4), ?_⟩
-    intro w t hr hw
-    have := e5 w t hr hw
-    simpa using this
+    obtain ⟨h2, e0, e1, e2, e3, e4, e5, e6⟩ := hnext
+    refine ⟨h2, 1, by omega, by omega, e1, fun fuel => xssLoop_tag_step _ h2 0 fuel name e0 e2 (hslice h2 e1 e3 e4), ?_, ?_⟩
+    · intro w t hr hw
+      have := e5 w t hr hw
+      simpa using this
+    · intro t hr
+      have := e6 t hr
+      simpa using this
   · have hpl : 1 ≤ p.length := by cases p with | nil => exact absurd rfl hp0 | cons _ _ => simp
     have hidx : indexByte (p ++ 60 :: (name ++ rest)) 60 = some p.length := indexByte_first p 60 _ hp
     have hnext1 : next (init (p ++ 60 :: (name ++ rest)) 0) =
@@ -416,20 +427,23 @@ theorem content_reaches_tag (p name rest : Bytes) (hp : (60 : UInt8) ∉ p) (hn 
       simp only [offFrom, Nat.zero_le, ↓reduceIte, List.drop_zero, bind, Except.bind, pure, Except.pure, hidx]
       have : (p.length == 0) = false := by simp; omega
       simp only [this, Bool.false_eq_true, ↓reduceIte]
-    obtain ⟨h2, e0, e1, e2, e3, e4, e5⟩ := stateTagOpen_name 5
+    obtain ⟨h2, e0, e1, e2, e3, e4, e5, e6⟩ := stateTagOpen_name 5
       (emit (init (p ++ 60 :: (name ++ rest)) 0) 0 p.length .dataText (0 + p.length + 1) .tagOpen) (p ++ [60]) name rest
       (by simp [emit, init]) (by simp [emit]) (by simp [emit, init]) hn
     have hnext2 : next (emit (init (p ++ 60 :: (name ++ rest)) 0) 0 p.length .dataText (0 + p.length + 1) .tagOpen) = .ok (true, h2) := by
       unfold next
       simp only [emit]
       exact e0
-    refine ⟨h2, 2, by omega, by omega, by rw [e1]; simp [emit, init], fun fuel => ?_, ?_⟩
+    refine ⟨h2, 2, by omega, by omega, by rw [e1]; simp [emit, init], fun fuel => ?_, ?_, ?_⟩
     · rw [show fuel + 2 = (fuel + 1) + 1 by omega]
       conv => lhs; unfold xssLoop
       simp only [hnext1, bind, Except.bind, pure, Except.pure, Bool.not_true, Bool.false_eq_true, ↓reduceIte, emit]
       exact xssLoop_tag_step _ h2 0 fuel name hnext2 e2 (hslice h2 (by rw [e1]; simp [emit, init]) e3 e4)
     · intro w t hr hw
       have := e5 w t hr hw
+      simpa using this
+    · intro t hr
+      have := e6 t hr
       simpa using this
 
 /-- **C04, attributes of any element in element content**: `text <tag w … name = v…` -/
@@ -438,7 +452,7 @@ theorem black_attr_in_element (p tag ws name ws2 rest : Bytes) (w c : UInt8) (hp
     (hws : ws.all isSkipWhite = true) (hws2 : ws2.all isSkipWhite = true) (hc : isSkipWhite c = false) (ha : AttrAt name)
     (hty : isBlackAttr name = 1 ∨ isBlackAttr name = 3) :
     isXSSCtx (p ++ 60 :: (tag ++ w :: (ws ++ name ++ 61 :: (ws2 ++ c :: rest)))) 0 = .ok true := by
-  obtain ⟨h2, k, hk2, hk1, hs2, hloop, hst⟩ := content_reaches_tag p tag _ hp hn
+  obtain ⟨h2, k, hk2, hk1, hs2, hloop, hst, _⟩ := content_reaches_tag p tag _ hp hn
   obtain ⟨hstate, hpos⟩ := hst w _ rfl hw
   unfold isXSSCtx xssFuel
   generalize hS : p ++ 60 :: (tag ++ w :: (ws ++ name ++ 61 :: (ws2 ++ c :: rest))) = S at hs2 hloop ⊢
@@ -530,7 +544,7 @@ theorem url_attr_in_element (p tag ws name ws2 u rest : Bytes) (w q : UInt8) (hq
     (hws : ws.all isSkipWhite = true) (hws2 : ws2.all isSkipWhite = true) (hu : q ∉ u) (ha : AttrAt name)
     (hty : isBlackAttr name = 2) (hurl : isBlackURL u = .ok true) :
     isXSSCtx (p ++ 60 :: (tag ++ w :: (ws ++ name ++ 61 :: (ws2 ++ q :: (u ++ q :: rest))))) 0 = .ok true := by
-  obtain ⟨h2, k, hk2, hk1, hs2, hloop, hst⟩ := content_reaches_tag p tag _ hp hn
+  obtain ⟨h2, k, hk2, hk1, hs2, hloop, hst, _⟩ := content_reaches_tag p tag _ hp hn
   obtain ⟨hstate, hpos⟩ := hst w _ rfl hw
   unfold isXSSCtx xssFuel
   generalize hS : p ++ 60 :: (tag ++ w :: (ws ++ name ++ 61 :: (ws2 ++ q :: (u ++ q :: rest)))) = S at hs2 hloop ⊢
@@ -540,5 +554,190 @@ theorem url_attr_in_element (p tag ws name ws2 u rest : Bytes) (w q : UInt8) (hq
   · rw [show 3 * S.length + 4 - k = (3 * S.length + 2 - k) + 2 by omega]
     exact xss_url_attr_core h2 h2 3 (by unfold next; rw [hstate]; rfl) (p ++ 60 :: (tag ++ [w])) ws name ws2 u rest q hq
       (by rw [hs2, ← hS]; simp) (by rw [hpos]; simp; omega) hws hws2 hu ha hty hurl 0 _
+
+/-! ## `/` as the separator between the element name and the first attribute -/
+
+/-- the self-closing state on a byte other than `>` continues as the before-attribute-name state -/
+theorem selfClosing_to_ban (h : H) (hst : h.state = .selfClosing) (c0 : UInt8) (hc : h.s[h.pos]? = some c0) (h62 : c0 ≠ 62) :
+    next h = stateBeforeAttributeName 3 h := by
+  have hlt : h.pos < h.s.length := getElem?_some_lt hc
+  have hget : h.s[h.pos] = c0 := by
+    rw [List.getElem?_eq_getElem hlt] at hc; exact Option.some.inj hc
+  unfold next
+  rw [hst]
+  show stateSelfClosingStartTag (3 + 1) h = _
+  unfold stateSelfClosingStartTag
+  have hge : ¬ h.pos ≥ h.s.length := by omega
+  have hne : (c0 == 62) = false := by simpa using h62
+  simp only [hge, ↓reduceIte, at'_ok hlt, hget, hne, Bool.false_eq_true, bind, Except.bind]
+
+/-- first byte of `ws ++ name ++ …` is not `>` -/
+theorem attr_first_not_gt (ws name rest : Bytes) (hws : ws.all isSkipWhite = true) (ha : AttrAt name) :
+    ∃ c0, (ws ++ name ++ rest)[0]? = some c0 ∧ c0 ≠ 62 := by
+  obtain ⟨c, t, hname, _, _, h62, _⟩ := ha.first
+  cases ws with
+  | nil => exact ⟨c, by rw [hname]; rfl, h62⟩
+  | cons x xs =>
+    simp only [List.all_cons, Bool.and_eq_true] at hws
+    refine ⟨x, rfl, ?_⟩
+    intro hx; rw [hx] at hws; exact absurd hws.1 (by decide)
+
+/-- **C04, `/` separator**: `text <tag/ … name = v…` -/
+theorem black_attr_in_element_slash (p tag ws name ws2 rest : Bytes) (c : UInt8) (hp : (60 : UInt8) ∉ p)
+    (hn : NameAt tag (47 :: (ws ++ name ++ 61 :: (ws2 ++ c :: rest))))
+    (hws : ws.all isSkipWhite = true) (hws2 : ws2.all isSkipWhite = true) (hc : isSkipWhite c = false) (ha : AttrAt name)
+    (hty : isBlackAttr name = 1 ∨ isBlackAttr name = 3) :
+    isXSSCtx (p ++ 60 :: (tag ++ 47 :: (ws ++ name ++ 61 :: (ws2 ++ c :: rest)))) 0 = .ok true := by
+  obtain ⟨h2, k, hk2, hk1, hs2, hloop, _, hst⟩ := content_reaches_tag p tag _ hp hn
+  obtain ⟨hstate, hpos⟩ := hst _ rfl
+  obtain ⟨c0, hc0, h62⟩ := attr_first_not_gt ws name (61 :: (ws2 ++ c :: rest)) hws ha
+  have hget : h2.s[h2.pos]? = some c0 := by
+    rw [hs2, hpos, show p ++ 60 :: (tag ++ 47 :: (ws ++ name ++ 61 :: (ws2 ++ c :: rest))) =
+      (p ++ 60 :: (tag ++ [47])) ++ (ws ++ name ++ 61 :: (ws2 ++ c :: rest)) by simp,
+      List.getElem?_append_right (by simp; omega)]
+    have e0 : p.length + 1 + tag.length + 1 - (p ++ 60 :: (tag ++ [47])).length = 0 := by simp; omega
+    rw [e0]
+    exact hc0
+  unfold isXSSCtx xssFuel
+  generalize hS : p ++ 60 :: (tag ++ 47 :: (ws ++ name ++ 61 :: (ws2 ++ c :: rest))) = S at hs2 hloop ⊢
+  rw [show 3 * S.length + 4 = (3 * S.length + 4 - k) + k by omega, hloop]
+  split
+  · rfl
+  · rw [show 3 * S.length + 4 - k = (3 * S.length + 2 - k) + 2 by omega]
+    exact xss_black_attr_core h2 h2 2 (selfClosing_to_ban h2 hstate c0 hget h62) (p ++ 60 :: (tag ++ [47])) ws name ws2 rest c
+      (by rw [hs2, ← hS]; simp) (by rw [hpos]; simp; omega) hws hws2 hc ha hty 0 _
+
+/-- … URL attributes after a `/` separator -/
+theorem url_attr_in_element_slash (p tag ws name ws2 u rest : Bytes) (q : UInt8) (hq : q = 34 ∨ q = 39 ∨ q = 96) (hp : (60 : UInt8) ∉ p)
+    (hn : NameAt tag (47 :: (ws ++ name ++ 61 :: (ws2 ++ q :: (u ++ q :: rest)))))
+    (hws : ws.all isSkipWhite = true) (hws2 : ws2.all isSkipWhite = true) (hu : q ∉ u) (ha : AttrAt name)
+    (hty : isBlackAttr name = 2) (hurl : isBlackURL u = .ok true) :
+    isXSSCtx (p ++ 60 :: (tag ++ 47 :: (ws ++ name ++ 61 :: (ws2 ++ q :: (u ++ q :: rest))))) 0 = .ok true := by
+  obtain ⟨h2, k, hk2, hk1, hs2, hloop, _, hst⟩ := content_reaches_tag p tag _ hp hn
+  obtain ⟨hstate, hpos⟩ := hst _ rfl
+  obtain ⟨c0, hc0, h62⟩ := attr_first_not_gt ws name (61 :: (ws2 ++ q :: (u ++ q :: rest))) hws ha
+  have hget : h2.s[h2.pos]? = some c0 := by
+    rw [hs2, hpos, show p ++ 60 :: (tag ++ 47 :: (ws ++ name ++ 61 :: (ws2 ++ q :: (u ++ q :: rest)))) =
+      (p ++ 60 :: (tag ++ [47])) ++ (ws ++ name ++ 61 :: (ws2 ++ q :: (u ++ q :: rest))) by simp,
+      List.getElem?_append_right (by simp; omega)]
+    have e0 : p.length + 1 + tag.length + 1 - (p ++ 60 :: (tag ++ [47])).length = 0 := by simp; omega
+    rw [e0]
+    exact hc0
+  unfold isXSSCtx xssFuel
+  generalize hS : p ++ 60 :: (tag ++ 47 :: (ws ++ name ++ 61 :: (ws2 ++ q :: (u ++ q :: rest)))) = S at hs2 hloop ⊢
+  rw [show 3 * S.length + 4 = (3 * S.length + 4 - k) + k by omega, hloop]
+  split
+  · rfl
+  · rw [show 3 * S.length + 4 - k = (3 * S.length + 2 - k) + 2 by omega]
+    exact xss_url_attr_core h2 h2 2 (selfClosing_to_ban h2 hstate c0 hget h62) (p ++ 60 :: (tag ++ [47])) ws name ws2 u rest q hq
+      (by rw [hs2, ← hS]; simp) (by rw [hpos]; simp; omega) hws hws2 hu ha hty hurl 0 _
+
+/-! ## unquoted URL values -/
+
+/-- an unquoted attribute value as the tokenizer scans it, followed by a byte that ends it (or by end of input) -/
+structure ValAt (u rest : Bytes) : Prop where
+  first : ∃ c t, u = c :: t ∧ isSkipWhite c = false ∧ c ≠ 34 ∧ c ≠ 39 ∧ c ≠ 96
+  bytes : u.all noQuoteByte = true
+  stop : rest = [] ∨ ∃ c t, rest = c :: t ∧ noQuoteByte c = false
+
+theorem spn_val (u rest : Bytes) (h : ValAt u rest) : spn noQuoteByte (u ++ rest) = u.length := by
+  rcases h.stop with rfl | ⟨c, t, rfl, hc⟩
+  · simp only [List.append_nil]; exact spnA_all _ _ h.bytes
+  · exact spnA_stop _ _ _ _ h.bytes hc
+
+/-- the before-attribute-value state on an unquoted value: the token is exactly `u` -/
+theorem beforeAttrValue_unquoted (h : H) (pre ws u rest : Bytes) (hs : h.s = pre ++ ws ++ u ++ rest) (hpos : h.pos = pre.length)
+    (hws : ws.all isSkipWhite = true) (hv : ValAt u rest) :
+    ∃ h3, stateBeforeAttributeValue h = .ok (true, h3) ∧ h3.tokType = .attrValue ∧ h3.s = h.s ∧
+      h3.tokStart = pre.length + ws.length ∧ h3.tokLen = u.length := by
+  obtain ⟨c, t, hu, hcw, c34, c39, c96⟩ := hv.first
+  have hlen : h.s.length = pre.length + ws.length + u.length + rest.length := by rw [hs]; simp; omega
+  have hs2 : h.s = pre ++ ws ++ c :: (t ++ rest) := by rw [hs, hu]; simp
+  have hsk := skipWhite_run h pre ws (t ++ rest) c hs2 hpos hws hcw
+  unfold stateBeforeAttributeValue
+  simp only [hsk]
+  have e34 : (c == 34) = false := by simpa using c34
+  have e39 : (c == 39) = false := by simpa using c39
+  have e96 : (c == 96) = false := by simpa using c96
+  simp only [e34, e39, e96, Bool.false_eq_true, ↓reduceIte]
+  unfold stateAttributeValueNoQuote
+  have hoff : offFrom h.s (pre.length + ws.length) = .ok (pre.length + ws.length) := by unfold offFrom; simp; omega
+  have hdrop : h.s.drop (pre.length + ws.length) = u ++ rest := by
+    rw [hs, show pre ++ ws ++ u ++ rest = (pre ++ ws) ++ (u ++ rest) by simp,
+      show pre.length + ws.length = (pre ++ ws).length by simp, List.drop_left]
+  have hget : h.s[pre.length + ws.length + u.length]? = rest[0]? := by
+    rw [hs, show pre ++ ws ++ u ++ rest = (pre ++ ws ++ u) ++ rest by simp,
+      List.getElem?_append_right (by simp; omega)]
+    congr 1; simp; omega
+  simp only [hoff, bind, Except.bind, pure, Except.pure, hdrop, spn_val u rest hv, hget]
+  rcases hv.stop with rfl | ⟨c2, t2, rfl, hc2⟩
+  · simp only [List.getElem?_nil]
+    exact ⟨_, rfl, rfl, rfl, rfl, by show h.s.length - (pre.length + ws.length) = u.length; rw [hlen]; simp⟩
+  · simp only [List.getElem?_cons_zero]
+    split
+    · exact ⟨_, rfl, rfl, rfl, rfl, by show pre.length + ws.length + u.length - (pre.length + ws.length) = u.length; omega⟩
+    · exact ⟨_, rfl, rfl, rfl, rfl, by show pre.length + ws.length + u.length - (pre.length + ws.length) = u.length; omega⟩
+
+/-- **C04, unquoted URL values**: `ws name = ws2 u` with a URL-bearing attribute name and an unquoted value
+`u` that the URL matcher judges dangerous is reported -/
+theorem xss_url_attr_unquoted_core (h0 h : H) (d : Nat) (hnext0 : next h0 = stateBeforeAttributeName (d + 1) h)
+    (pre ws name ws2 u rest : Bytes)
+    (hs : h.s = pre ++ ws ++ name ++ 61 :: (ws2 ++ u ++ rest)) (hpos : h.pos = pre.length)
+    (hws : ws.all isSkipWhite = true) (hws2 : ws2.all isSkipWhite = true) (hv : ValAt u rest) (hn : AttrAt name)
+    (hty : isBlackAttr name = 2) (hurl : isBlackURL u = .ok true) (attr fuel : Nat) : xssLoop h0 attr (fuel + 2) = .ok true := by
+  obtain ⟨h2, e0, e1, e2, e3, e4, e5, e6⟩ := beforeAttrName_name d h pre ws name (ws2 ++ u ++ rest) hs hpos hws hn
+  have hnext1 : next h0 = .ok (true, h2) := by rw [hnext0]; exact e0
+  have hslice : slice h2.s h2.tokStart (h2.tokStart + h2.tokLen) = .ok name := by
+    rw [e1, e3, e4, hs]
+    unfold slice
+    have hl : pre.length + ws.length + name.length ≤ (pre ++ ws ++ name ++ 61 :: (ws2 ++ u ++ rest)).length := by simp; omega
+    simp only [Nat.le_add_right, hl, and_self, ↓reduceIte]
+    rw [show pre ++ ws ++ name ++ 61 :: (ws2 ++ u ++ rest) = (pre ++ ws) ++ (name ++ 61 :: (ws2 ++ u ++ rest)) by simp,
+      show pre.length + ws.length = (pre ++ ws).length by simp, List.drop_left, Nat.add_sub_cancel_left, List.take_left]
+  obtain ⟨h3, f0, f1, f2, f3, f4⟩ := beforeAttrValue_unquoted h2 (pre ++ ws ++ name ++ [61]) ws2 u rest
+    (by rw [e1, hs]; simp) (by rw [e6]; simp; omega) hws2 hv
+  have hnext2 : next h2 = .ok (true, h3) := by unfold next; rw [e5]; exact f0
+  have hslice3 : slice h3.s h3.tokStart (h3.tokStart + h3.tokLen) = .ok u := by
+    rw [f2, e1, f3, f4, hs]
+    unfold slice
+    have hl : (pre ++ ws ++ name ++ [61]).length + ws2.length + u.length ≤
+        (pre ++ ws ++ name ++ 61 :: (ws2 ++ u ++ rest)).length := by simp; omega
+    simp only [Nat.le_add_right, hl, and_self, ↓reduceIte]
+    have e7 : pre ++ ws ++ name ++ 61 :: (ws2 ++ u ++ rest) = (pre ++ ws ++ name ++ [61] ++ ws2) ++ (u ++ rest) := by simp
+    have e8 : (pre ++ ws ++ name ++ [61]).length + ws2.length = (pre ++ ws ++ name ++ [61] ++ ws2).length := by simp only [List.length_append]
+    rw [e8, e7, List.drop_left, Nat.add_sub_cancel_left, List.take_left]
+  unfold xssLoop
+  simp only [hnext1, bind, Except.bind, pure, Except.pure, Bool.not_true, Bool.false_eq_true, ↓reduceIte, e2, hslice]
+  unfold xssLoop
+  simp only [hnext2, bind, Except.bind, pure, Except.pure, Bool.not_true, Bool.false_eq_true, ↓reduceIte, f1,
+    bne_self_eq_false, hty, hslice3, hurl]
+
+/-- … in the unquoted-attribute context -/
+theorem url_attr_unquoted_in_tag_context (ws name ws2 u rest : Bytes)
+    (hws : ws.all isSkipWhite = true) (hws2 : ws2.all isSkipWhite = true) (hv : ValAt u rest) (hn : AttrAt name)
+    (hty : isBlackAttr name = 2) (hurl : isBlackURL u = .ok true) :
+    isXSSCtx (ws ++ name ++ 61 :: (ws2 ++ u ++ rest)) 1 = .ok true := by
+  unfold isXSSCtx xssFuel
+  have hf : 3 * (ws ++ name ++ 61 :: (ws2 ++ u ++ rest)).length + 4 =
+      (3 * (ws ++ name ++ 61 :: (ws2 ++ u ++ rest)).length + 2) + 2 := by omega
+  rw [hf]
+  exact xss_url_attr_unquoted_core (init _ 1) (init _ 1) 3 rfl [] ws name ws2 u rest (by simp [init]) rfl hws hws2 hv hn hty hurl 0 _
+
+/-- … on any element in element content: `text <tag w … name = u…` -/
+theorem url_attr_unquoted_in_element (p tag ws name ws2 u rest : Bytes) (w : UInt8) (hp : (60 : UInt8) ∉ p)
+    (hn : NameAt tag (w :: (ws ++ name ++ 61 :: (ws2 ++ u ++ rest)))) (hw : isH5White w = true)
+    (hws : ws.all isSkipWhite = true) (hws2 : ws2.all isSkipWhite = true) (hv : ValAt u rest) (ha : AttrAt name)
+    (hty : isBlackAttr name = 2) (hurl : isBlackURL u = .ok true) :
+    isXSSCtx (p ++ 60 :: (tag ++ w :: (ws ++ name ++ 61 :: (ws2 ++ u ++ rest)))) 0 = .ok true := by
+  obtain ⟨h2, k, hk2, hk1, hs2, hloop, hst, _⟩ := content_reaches_tag p tag _ hp hn
+  obtain ⟨hstate, hpos⟩ := hst w _ rfl hw
+  unfold isXSSCtx xssFuel
+  generalize hS : p ++ 60 :: (tag ++ w :: (ws ++ name ++ 61 :: (ws2 ++ u ++ rest))) = S at hs2 hloop ⊢
+  rw [show 3 * S.length + 4 = (3 * S.length + 4 - k) + k by omega, hloop]
+  split
+  · rfl
+  · rw [show 3 * S.length + 4 - k = (3 * S.length + 2 - k) + 2 by omega]
+    exact xss_url_attr_unquoted_core h2 h2 3 (by unfold next; rw [hstate]; rfl) (p ++ 60 :: (tag ++ [w])) ws name ws2 u rest
+      (by rw [hs2, ← hS]; simp) (by rw [hpos]; simp; omega) hws hws2 hv ha hty hurl 0 _
 
 end LibInj.Xss
